@@ -464,7 +464,7 @@ impl<C: Cfg> World<C> {
         };
         let removed: Vec<u32> = self.model[v][a..b].to_vec();
         let new_len = len - (b - a) + if splice { (repl_payloads.len() as isize + 0) as usize } else { 0 };
-        let cap_bad = splice && matches!(self.flav[v].fixed_cap(), Some(c) if new_len > c);
+        let cap_bad = splice && op.lie == 0 && !forget_iter && matches!(self.flav[v].fixed_cap(), Some(c) if new_len > c);
         if b > a || (splice && !repl_payloads.is_empty()) {
             self.nontrivial = true;
         }
@@ -535,6 +535,10 @@ impl<C: Cfg> World<C> {
         if !moved.is_empty() {
             self.class("moved-between-vectors");
         }
+        if forgotten_items > 0 {
+            self.forgot = true;
+            self.class("forgot-item");
+        }
         if C::T::TRACKED && !C::T::ZST {
             self.permitted_leaks += forgotten_items;
         } else if C::T::TRACKED {
@@ -552,7 +556,12 @@ impl<C: Cfg> World<C> {
             if from_w {
                 self.resync_after_damage(w);
             }
+            self.recount_leaks();
             self.class("damage");
+            if forget_iter {
+                self.forgot = true;
+                self.class("forgot-iterator");
+            }
             return;
         }
         // final sequence
